@@ -409,6 +409,91 @@ func VerifOverlay() {
 	out.CleanUp()
 }
 
+// symRequirer requires a path according to one (possibly symbolic) bit per universe path.
+type symRequirer struct{ bits map[string]bool }
+
+func (r *symRequirer) FileRequired(p string, _ fs.FileInfo) bool {
+	return r.bits[strings.TrimPrefix(p, "/")]
+}
+
+// VerifRequirer: loading with a restriction to required files changes nothing except that
+// non-required regular files are absent from the final view (intermediate views are untouched).
+func VerifRequirer() {
+	vos.Reset()
+	sizes := layerSizes(verifrt.ParamStr("layers"))
+	nUni := verifrt.Param("universe")
+	img := &fakeimg.Image{}
+	var specs [][]entrySpec
+	for li, m := range sizes {
+		var layer []entrySpec
+		var entries []tarstub.Entry
+		for j := 0; j < m; j++ {
+			// regular files, directories and symlinks (whiteouts are the subject of VerifOverlay)
+			e := entrySpec{path: universe[verifrt.Choice("path", nUni)], kind: verifrt.Choice("kind", 3)}
+			if e.kind == kReg {
+				e.size = int64(verifrt.IntRange("size", 0, 8))
+				e.mode = 0o644
+			}
+			if e.kind == kDir {
+				e.mode = 0o755
+			}
+			for _, o := range layer {
+				if o.path == e.path || (under(o.path, e.path) && o.kind != kDir) || (under(e.path, o.path) && e.kind != kDir) {
+					verifrt.Assume(false)
+				}
+			}
+			layer = append(layer, e)
+			entries = append(entries, e.tarEntry(""))
+		}
+		specs = append(specs, layer)
+		img.Ls = append(img.Ls, &fakeimg.Layer{Index: li, Entries: entries})
+	}
+	req := &symRequirer{bits: map[string]bool{}}
+	for _, p := range universe[:nUni] {
+		req.bits[p] = verifrt.Bool("required")
+	}
+	cfg := image.DefaultConfig()
+	cfg.MaxFileBytes = 1 << 20
+	cfg.Requirer = req
+	out, err := image.FromV1Image(img, cfg)
+	verifrt.Assert(err == nil, "a well-formed image loads")
+	if err != nil {
+		return
+	}
+	chain, _ := out.ChainLayers()
+	state := map[string]*onode{}
+	for i := range sizes {
+		apply(state, specs[i], i)
+		fsys := chain[i].FS()
+		final := i == len(sizes)-1
+		for p, n := range state {
+			if n.kind != kReg {
+				continue
+			}
+			info, err := fsys.Stat(p)
+			// a file that a required symlink points to is kept as well
+			linked := false
+			for q, l := range state {
+				if l.kind == kSymlink && l.target == "/"+p {
+					linked = verifrt.Or(linked, req.bits[q])
+				}
+			}
+			want := true
+			if final {
+				want = verifrt.Or(req.bits[p], linked)
+			}
+			verifrt.Assert(verifrt.Iff(err == nil, want), "with a file requirer a regular file is in the final view iff it is required (or the target of a required symlink); earlier views are unchanged: "+p)
+			if err == nil {
+				verifrt.Assert(info.Size() == n.size, "a required file keeps its size: "+p)
+				verifrt.Reach("kept")
+			} else {
+				verifrt.Reach("pruned")
+			}
+		}
+	}
+	out.CleanUp()
+}
+
 // VerifTwin must be violated.
 func VerifTwin() {
 	vos.Reset()
